@@ -116,6 +116,47 @@ def check_hist(inp, out, rng):
         marg = m.groupby(level='range', sort=False).sum().to_numpy()
         if all(em[0] <= r[0] + r[1] <= em[-1] for r in rows) and not close(marg, list(out['range'])):
             v.append(('range histogram is not the marginal of the range/mean histogram', case, list(out['range']), marg.tolist()))
+    # the range/mean description under an index with REPEATED labels (an element_id-only index with several cycles per element) and a cycles column:
+    # same members, same histogram; and with non-unit cycles the range histogram is still the marginal of the range/mean histogram
+    if len(rows) >= 2 and (sum(r[0] * 7 + r[1] for r in rows) + len(e)) % 3 == 0:      # (a third of the states: the frames are costly to build)
+        cyc = [float(2 + (k * 3) % 5) for k in range(len(rows))]
+        lab = pd.Index([7 if k < 2 else 4 for k in range(len(rows))], name='element_id')
+        rmd = pd.DataFrame({'range': [abs(r[0] - r[1]) * 1.0 for r in rows], 'mean': [(r[0] + r[1]) / 2.0 for r in rows], 'cycles': cyc}, index=lab)
+        try:
+            lcd = rmd.load_collective
+            if not (close(lcd.amplitude.to_numpy(), [abs(r[0] - r[1]) / 2.0 for r in rows]) and close(lcd.meanstress.to_numpy(), [(r[0] + r[1]) / 2.0 for r in rows])
+                    and close(lcd.cycles.to_numpy(), cyc) and list(lcd.amplitude.index) == list(lab)):
+                v.append(('range/mean description under an index with repeated labels: members / cycles / index differ from what was given', {**case, 'index_labels': list(lab), 'cycles': cyc},
+                          [[abs(r[0] - r[1]) / 2.0 for r in rows], cyc], [lcd.amplitude.tolist(), lcd.cycles.tolist()]))
+            hd = lcd.range_histogram([float(x) for x in e]).to_pandas()
+            if not close(hd.to_numpy(), list(out['range'])):
+                v.append(('range histogram of the range/mean description under an index with repeated labels differs', {**case, 'index_labels': list(lab)}, list(out['range']), hd.tolist()))
+        except Exception as ex:
+            v.append(('range/mean description under an index with repeated labels raised %r' % ex, case, None, None))
+        ftc = df.assign(cycles=cyc).load_collective
+        hr1 = ftc.range_histogram([float(x) for x in e]).to_pandas().to_numpy()
+        hm1 = ftc.histogram([[float(x) for x in e], [x / 2.0 for x in em]]).to_pandas()
+        if all(em[0] <= r[0] + r[1] <= em[-1] for r in rows) and not close(hm1.groupby(level='range', sort=False).sum().to_numpy(), hr1):
+            v.append(('collective with a cycles column (non-unit cycles): the range histogram is not the marginal of the range/mean histogram', {**case, 'cycles': cyc},
+                      hr1.tolist(), hm1.groupby(level='range', sort=False).sum().tolist()))
+        # three extra levels, the first of them NAMED 0 (set_index([0, ...]) of a frame with integer column labels): grouped by every level but the axis
+        tuples = [(g, nd, k) for g in (30, 10) for nd in (1, 2) for k in range(len(rows))]
+        big0 = pd.DataFrame({'from': [float(r[0]) + (1.0 if t[0] == 10 else 0.0) for t in tuples for r in [rows[t[2]]]], 'to': [float(rows[t[2]][1]) for t in tuples]},
+                            index=pd.MultiIndex.from_tuples(tuples, names=[0, 'node_id', 'cycle_number']))
+        try:
+            h0 = big0.load_collective.range_histogram([float(x) for x in e], 'cycle_number').to_pandas()
+            shifted = pd.DataFrame({'from': [float(r[0]) + 1.0 for r in rows], 'to': [float(r[1]) for r in rows]}).load_collective.range_histogram([float(x) for x in e]).to_pandas().to_numpy()
+            ok0 = list(h0.index.names)[:2] == [0, 'node_id'] and len(h0) == 4 * (len(e) - 1)
+            if ok0:
+                for g in (30, 10):
+                    for nd in (1, 2):
+                        part = h0[(h0.index.get_level_values(0) == g) & (h0.index.get_level_values(1) == nd)].to_numpy()
+                        ok0 = ok0 and close(part, list(out['range']) if g == 30 else shifted)
+            if not ok0:
+                v.append(('range histogram along an axis of a collective whose first extra level is named 0: groups are not (level 0, node_id) / differ from the same cycles histogrammed alone',
+                          {**case, 'level_names': [0, 'node_id', 'cycle_number']}, list(out['range']), h0.tolist()))
+        except Exception as ex:
+            v.append(('range histogram along an axis of a collective whose first extra level is named 0 raised %r' % ex, case, None, None))
     # with an extra index level and axis: per group the same counts
     if len(rows) >= 1:
         idx = pd.MultiIndex.from_product([[5, 9], range(len(rows))], names=['element_id', 'cycle_number'])
@@ -283,7 +324,7 @@ def run(chk):
         os.remove(res.dump_path)
     chk.cov['rule'] = ('TLC enumerates (i) from/to rows over -3..3 with scale/shift operands, (ii) collectives of 1..MaxRows rows x range-edge sets (single bin, irregular, not covering) x mean-edge sets, '
                        '(iii) histograms x source/target binnings (irregular, finer, coarser, shifted, single class, not covering) and proves the accounting identities in exact arithmetic; '
-                       'every state is evaluated through df.load_collective (from/to, from/to+cycles+extra levels, range/mean forms; scalar and per-level scale/shift operands; edges and IntervalIndex bins; axis grouping), '
+                       'every state is evaluated through df.load_collective (from/to, from/to+cycles+extra levels, range/mean forms; scalar and per-level scale/shift operands; edges and IntervalIndex bins; axis grouping incl. a level named 0; range/mean description under repeated index labels; non-unit cycles column), '
                        'rebin_histogram (IntervalIndex and integer binnings, ascending/rotated class order, 2-D with both target level orders) and combine_histogram. '
                        'Non-trivial: histograms with a hanging cycle (from > to) and a covered cycle; rebin with different binnings and non-zero content.')
     chk.cov['rule'] += ' Re-binning works on class lists incl. an enclosing source class (nested classes), integer-typed counts; held LoadHistogram queried before/after amplitude_histogram; groups with different contents under unsorted keys; negative histogram scale factors must be refused or consistent.'
